@@ -33,6 +33,8 @@ type Scenario struct {
 	LateAnswers bool `json:"lateanswers,omitempty"`
 	// Lenient: a step of a fixed schedule whose proc is not enabled is replaced by the first enabled proc.
 	Lenient bool `json:"lenient,omitempty"`
+	// From: the enumeration starts after these choices (one proc name per step): every completion of this prefix is explored.
+	From []string `json:"from,omitempty"`
 }
 
 type Step struct {
@@ -457,7 +459,7 @@ func Explore(scn Scenario, tmpl, scratch string, seed int64, workers, maxExec in
 		return st, nil
 	}
 	var mu sync.Mutex
-	stack := []item{{}}
+	stack := []item{{choices: scn.From}}
 	active := 0
 	var firstErr error
 	cond := sync.NewCond(&mu)
